@@ -5,14 +5,17 @@ From HV Require Import Lib.Bytes Lib.U64 Lib.Varint Lib.Canoto Lib.Harness Model
 Local Open Scope N_scope.
 
 (* What the driver observed of one accepted transaction (through the real accessors):
-   Base fields, Bytes() of every action and of the auth, UnsignedBytes(), Bytes(), and — rebuilt from the
-   parsed parts with NewTransaction(base, actions, auth) — Bytes() and UnsignedBytes() of the rebuilt
-   transaction; o_ids_ok: GetID() == ToID(input slice) == GetID() of the rebuilt transaction. *)
+   Base fields, Bytes() of every action and of the auth, len(UnsignedBytes()), and the comparisons
+     o_cached_ok : Bytes() == the input slice, UnsignedBytes() is a prefix of Bytes(), GetID() == ToID(slice),
+                   Size() == len(slice)
+     o_reenc_ok  : for rebuilt := NewTransaction(Base, Actions, Auth):  rebuilt.Bytes() == Bytes(),
+                   rebuilt.UnsignedBytes() == UnsignedBytes(), rebuilt.GetID() == GetID()
+   (byte strings are compared in the driver to keep the Coq terms small). *)
 Record tx_obs := mkObs {
   o_ts : Z; o_chain : bytes; o_fee : N;
   o_actions : list bytes; o_auth : bytes;
-  o_unsigned : bytes; o_bytes : bytes;
-  o_reenc : bytes; o_reunsigned : bytes; o_ids_ok : bool }.
+  o_unsigned_len : N;
+  o_cached_ok : bool; o_reenc_ok : bool }.
 
 (* accepted block header / execution results, as observed *)
 Record blk_obs := mkBlkObs { bo_parent : bytes; bo_ts : N; bo_height : N; bo_ctx : option N; bo_root : bytes }.
@@ -23,8 +26,8 @@ Record res_obs := mkResObs { ro_success : bool; ro_error : bytes; ro_outputs : l
    c_bls: every (auth bytes, accepted?) pair the BLS auth decoder was asked about during the call (oracle
           for the point-decompression check of the crypto library).
    c_class: 0 accepted, otherwise the error class (Lib/Canoto.v E_*; 99 other).
-   c_reenc: the bytes of the value rebuilt from the parsed parts (NewTransaction / Marshal of rebuilt txs /
-            NewStatelessBlock with rebuilt txs / MarshalCanoto of a copied ExecutionResults / Result).
+   c_reenc_ok: the bytes of the value rebuilt from the parsed parts (NewTransaction / Marshal of rebuilt txs /
+            NewStatelessBlock with rebuilt txs / MarshalCanoto of a copied ExecutionResults / Result) == input.
    c_flags: cached bytes == input and all ids equal the hash of the input. *)
 Record case := mk {
   c_kind : N;
@@ -35,7 +38,7 @@ Record case := mk {
   c_blk : option blk_obs;
   c_results : list (option res_obs);
   c_dims : list (list N);
-  c_reenc : bytes;
+  c_reenc_ok : bool;
   c_flags : bool }.
 
 Fixpoint bls_lookup (l : list (bytes * bool)) (b : bytes) : bool :=
@@ -61,7 +64,7 @@ Definition tx_matches (t : mtx) (o : tx_obs) : bool :=
   (b_ts (x_base t) =? o_ts o)%Z && bytes_eqb (b_chain (x_base t)) (o_chain o) && (b_fee (x_base t) =? o_fee o) &&
   list_eqb bytes_eqb (map transfer_bytes (x_actions t)) (o_actions o) &&
   bytes_eqb (x_auth t) (o_auth o) &&
-  bytes_eqb (x_unsigned t) (o_unsigned o) && bytes_eqb (x_bytes t) (o_bytes o).
+  (blen (x_unsigned t) =? o_unsigned_len o).
 
 Definition opt_eqb {S T} (eq : S -> T -> bool) (a : option S) (b : option T) : bool :=
   match a, b with Some x, Some y => eq x y | None, None => true | _, _ => false end.
@@ -104,14 +107,9 @@ Definition check_case (c : case) : bool :=
 (* The property on the implementation's outputs: whatever is accepted re-encodes, from its parsed parts,
    to exactly the input; cached bytes are the input; ids are the hash of the input; for every accepted
    transaction the signed message is the encoding of the rebuilt body without auth. *)
-Definition tx_spec (o : tx_obs) : bool :=
-  bytes_eqb (o_reenc o) (o_bytes o) && bytes_eqb (o_reunsigned o) (o_unsigned o) && o_ids_ok o.
+Definition tx_spec (o : tx_obs) : bool := o_cached_ok o && o_reenc_ok o.
 
 Definition spec_ok (c : case) : bool :=
   if negb (c_class c =? 0) then true
   else
-    bytes_eqb (c_reenc c) (c_input c) && c_flags c && forallb tx_spec (c_txs c) &&
-    match c_kind c with
-    | 0 => match c_txs c with [o] => bytes_eqb (o_bytes o) (c_input c) | _ => false end
-    | _ => true
-    end.
+    c_reenc_ok c && c_flags c && forallb tx_spec (c_txs c).
